@@ -291,10 +291,22 @@ def run(ctx, prop):
     if ctx.tier == "quick":
         rows = ctx.rng.sample(rows, 70)
     for t, lit, in_range in rows:
-        scope = ctx.rng.choice(["file", "interface"])
+        # where the constant sits: the compiled file or an included one, file scope or inside an
+        # interface (own, or a base interface the compiled file derives from: inherited constants
+        # are emitted again)
+        scope = ctx.rng.choice(["file", "interface", "included-file", "included-base"])
         const = {"k": "const", "type": t, "name": "KX", "value": lit}
-        nodes = [const] if scope == "file" else [{"k": "interface", "name": "IK", "base": None, "members": [const]}]
-        case = {"id": f"range-{t}-{lit}", "files": [{"path": "main.idl", "nodes": nodes}], "main": "main.idl", "incdirs": []}
+        if scope == "file":
+            files = [{"path": "main.idl", "nodes": [const]}]
+        elif scope == "interface":
+            files = [{"path": "main.idl", "nodes": [{"k": "interface", "name": "IK", "base": None, "members": [const]}]}]
+        elif scope == "included-file":
+            files = [{"path": "main.idl", "nodes": [{"k": "include", "path": "limits.idl"}, {"k": "interface", "name": "IK", "base": None, "members": []}]},
+                     {"path": "limits.idl", "nodes": [const]}]
+        else:
+            files = [{"path": "main.idl", "nodes": [{"k": "include", "path": "limits.idl"}, {"k": "interface", "name": "IK", "base": "ILimits", "members": []}]},
+                     {"path": "limits.idl", "nodes": [{"k": "interface", "name": "ILimits", "base": None, "members": [const]}]}]
+        case = {"id": f"range-{t}-{lit}-{scope}", "files": files, "main": "main.idl", "incdirs": []}
         with C.Scratch() as tmp:
             root = os.path.join(tmp, "src")
             idl.render_case(case, root)
@@ -307,11 +319,18 @@ def run(ctx, prop):
                 vm = E.verdict_of(model) == "accept"
                 if vm != (rc == 0) or vm != (E.verdict_of(impl) == "accept"):
                     disagree.append({"case": case, "ub": ub, "model_accepts": vm, "cli_exit": rc, "probe": E.verdict_of(impl)})
+                if not ub:
+                    # the library entry point (build scripts) never allows undefined behaviour
+                    from .validation import lib_verdict
+                    lv = lib_verdict(ctx, case, root)
+                    if (lv == "ok") != in_range:
+                        oracle_fail.append({"case": case, "failures": [{"error": "range decision of the library entry point differs from the mathematical range",
+                                                                        "type": t, "literal": lit, "lib": lv}]})
                 want_accept = in_range or ub
                 if want_accept != (rc == 0):
                     oracle_fail.append({"case": case, "failures": [{"error": "range decision differs from the mathematical range",
                                                                     "type": t, "literal": lit, "ub": ub, "cli_exit": rc}]})
-            distinct.add(("range", t, form_of(lit), in_range))
+            distinct.add(("range", t, form_of(lit), in_range, scope))
     # ---- (2) value and type of every emitted constant in every backend
     consts = []
     for t in list(INTS) + list(FLOATS):
